@@ -146,9 +146,12 @@ import "bytes"
 // the custom-payload flag set, the [string list] of warnings starts right after the tracing id (or at the start of
 // the body) and the [bytes map] follows it.
 //@   let w0 = written(dest)
-//@   let t0 = ite(header.Flags.Contains(primitive.HeaderFlagTracing) && body.Message.IsResponse(), int(16), int(0))
-//@   ensures warningsfirst: err == nil && header.Flags.Contains(primitive.HeaderFlagWarning) && header.Flags.Contains(primitive.HeaderFlagCustomPayload) && len(body.Warnings) <= 65535 ==> primitive.wbe2(dest, w0 + t0) == uint16(len(body.Warnings))
-//@   ensures payloadafter: err == nil && header.Flags.Contains(primitive.HeaderFlagWarning) && header.Flags.Contains(primitive.HeaderFlagCustomPayload) && len(body.CustomPayload) <= 65535 ==> primitive.wbe2(dest, w0 + t0 + primitive.LengthOfStringList(body.Warnings)) == uint16(len(body.CustomPayload))
+//@   let both = header.Flags.Contains(primitive.HeaderFlagWarning) && header.Flags.Contains(primitive.HeaderFlagCustomPayload)
+//@   let traced = header.Flags.Contains(primitive.HeaderFlagTracing) && body.Message.IsResponse()
+//@   ensures warningsfirst16: err == nil && both && traced && len(body.Warnings) <= 65535 ==> primitive.wbe2(dest, w0 + 16) == uint16(len(body.Warnings))
+//@   ensures warningsfirst0: err == nil && both && !traced && len(body.Warnings) <= 65535 ==> primitive.wbe2(dest, w0) == uint16(len(body.Warnings))
+//@   ensures payloadafter16: err == nil && both && traced && len(body.CustomPayload) <= 65535 ==> primitive.wbe2(dest, w0 + 16 + primitive.LengthOfStringList(body.Warnings)) == uint16(len(body.CustomPayload))
+//@   ensures payloadafter0: err == nil && both && !traced && len(body.CustomPayload) <= 65535 ==> primitive.wbe2(dest, w0 + primitive.LengthOfStringList(body.Warnings)) == uint16(len(body.CustomPayload))
 
 //@ func (*codec).EncodeHeader
 //@   prop C03, C02, C01
